@@ -90,7 +90,10 @@ def beyond_property(ctx):
     for k in keys:
         b = behs[k]
         pred_dups = [e[2] for e in b["hist"] if e[0] == "dup"]
-        obs = sd.run_sessions(work, b["cfg"], b["hist"], salt=ctx.seed)
+        try:
+            obs = sd.run_sessions(work, b["cfg"], b["hist"], salt=ctx.seed)
+        except Exception as e:      # design-layer growth: whatever the code does here is DRIFT at most
+            obs = {"dups": ["raised:" + type(e).__name__], "visible": []}
         ok = obs["dups"] == pred_dups and obs["visible"] == sorted(b["visible"])
         agree += ok
         if not ok:
